@@ -20,6 +20,51 @@ from .core import (
 from .interp import Closure, Interp, contains_sym
 
 
+class _TapePath:
+    """Path proxy that records (first use) or replays (later uses) the fresh values and choices
+    made inside a `with w.replaying(tape)` block, so that the same symbolic state can be built
+    more than once."""
+
+    def __init__(self, real, tape):
+        self.__dict__["_real"] = real
+        self.__dict__["_tape"] = tape
+        self.__dict__["_pos"] = 0
+        self.__dict__["_rec"] = not tape["done"]
+
+    def __getattr__(self, name):
+        return getattr(self._real, name)
+
+    def __setattr__(self, name, value):
+        setattr(self._real, name, value)
+
+    def _do(self, fn, *a, **k):
+        if self._rec:
+            v = fn(*a, **k)
+            self._tape["values"].append(v)
+            return v
+        v = self._tape["values"][self._pos]
+        self.__dict__["_pos"] += 1
+        return v
+
+    def fresh_int(self, *a, **k):
+        return self._do(self._real.fresh_int, *a, **k)
+
+    def fresh_bool(self, *a, **k):
+        return self._do(self._real.fresh_bool, *a, **k)
+
+    def fresh_real(self, *a, **k):
+        return self._do(self._real.fresh_real, *a, **k)
+
+    def fresh_str(self, *a, **k):
+        return self._do(self._real.fresh_str, *a, **k)
+
+    def fresh_bytes(self, *a, **k):
+        return self._do(self._real.fresh_bytes, *a, **k)
+
+    def choose(self, *a, **k):
+        return self._do(self._real.choose, *a, **k)
+
+
 class ViolationFound(Signal):
     def __init__(self, label, detail=None):
         super().__init__(label)
@@ -98,6 +143,23 @@ class World:
 
     def cut(self, reason):
         raise Cut(reason)
+
+    def tape(self):
+        return {"values": [], "done": False}
+
+    def replaying(self, tape):
+        import contextlib
+
+        @contextlib.contextmanager
+        def cm():
+            real = self.p
+            self.p = _TapePath(real, tape)
+            try:
+                yield
+            finally:
+                self.p = real
+                tape["done"] = True
+        return cm()
 
     def goal(self, name):
         self.p.goal(name)
@@ -201,7 +263,10 @@ class World:
         return s if not s.is_concrete() else "".join(chr(c) for c in s.cs)
 
     # -- verdicts -------------------------------------------------------------------------------
+    nchecks = 0
+
     def check(self, cond, label, detail=None):
+        self.nchecks += 1
         ok, model = self.p.prove(cond if not isinstance(cond, SBool) else cond.e)
         if ok:
             return
